@@ -92,7 +92,7 @@ def gen_run(rng, cfg):
             elif opk == "roundtrip":
                 op["reduce"] = rng.random() < 0.3
             elif opk == "visit":
-                op["visitor"] = rng.choice(["Collect", "Collect", "Count"])
+                op["visitor"] = rng.choice(["Collect", "CollectMore", "Count", "CountMore"])
                 op["tag"] = "tag%d" % i
             elif opk == "lex":
                 op["sim"] = True
